@@ -11,6 +11,10 @@ open SteelVerif.C16
 #print axioms gfix_imp_g
 #print axioms no_deadlock_fixed
 #print axioms dualStopper_fixed
+#print axioms no_deadlock_code
+#print axioms gate_keeps_guard
+#print axioms not_blocking_paths_publish
+#print axioms known_unpublished_tight
 #print axioms round_rank_decreases
 #print axioms stop_round_terminates
 #print axioms join_once
